@@ -114,6 +114,7 @@ class MockPg:
         self.named = []                      # z3 conditions: "a named protocol statement exists"
         self.named_names = []
         self.closed = False
+        self.died = False
         self.last_delivered = None
         self.slow = False                    # the statement being answered is one the backend is slow on (pg_sleep)
         self.params = dict(PARAM_DEFAULTS)   # the reported (GUC_REPORT) session parameters pgcat tracks
@@ -426,6 +427,16 @@ class MockPg:
                 req['started_copy'] = True
                 out.append(self.emit(req, 'G', b'\0\0\0'))
                 return out
+            elif 'DIE' in u.split():
+                # the backend breaks while executing the statement: a row description, half a DataRow, then the connection is gone
+                out.append(self.emit(req, 'T', struct.pack('>h', 1) + b'c\0' + struct.pack('>ihihih', 0, 0, 25, -1, -1, 0)))
+                self.closed = True
+                self.died = True
+                req['died'] = True
+                self.stream.inbound.extend(out[-1])
+                self.cur['delivered'].append(out[-1])
+                self.stream.inbound.extend([BV(8, b) for b in b'D\x00\x00\x00\x12\x00\x01\x00']) 
+                return []
             elif 'BIGROWS' in u or 'HUGEROW' in u:
                 out.append(self.emit(req, 'T', struct.pack('>h', 1) + b'c\0' + struct.pack('>ihihih', 0, 0, 25, -1, -1, 0)))
                 for m_ in self.big_rows(req, u):
@@ -906,7 +917,8 @@ def collect(env, session=None):
             if r.get('session', 0) != session:
                 continue
             reqs.append(dict(g=r['g'], backend=b.idx, bytes=r['bytes'], delivered=r['delivered'], status_after=r.get('status_after'),
-                             client_done=r['client_done'], params_before=r.get('params_before'), started_copy=r.get('started_copy', False)))
+                             client_done=r['client_done'], params_before=r.get('params_before'), started_copy=r.get('started_copy', False),
+                             died=r.get('died', False)))
     reqs.sort(key=lambda x: x['g'])
     handovers = []
     for b in env.backends:
@@ -944,6 +956,7 @@ def collect_native(res, session=0):
             reqs.append(dict(g=r['g'], backend=r['conn'] // 100, bytes=bvs(r['hex']), delivered=[bvs(d) for d in r['delivered']],
                              status_after=BV(8, r['status_after']), client_done=(True if r['phase'] == 3 else None),
                              started_copy=any(d[:2] == '47' for d in r['delivered']),
+                             died=(r['hex'][:2] == '51' and b'die' in bytes.fromhex(r['hex']).lower().split()[-1:][0] if bytes.fromhex(r['hex']).split() else False),
                              params_before={k: v.encode('latin1') for k, v in r['before'].get('params', {}).items()} or None))
         elif r['phase'] == 2 and r['conn'] in seen_a and r['conn'] not in probed:
             # the next client got the very same server connection: this is the hand-over
@@ -1112,6 +1125,9 @@ def judge(data, script, dec, expect_forward=None, cache_on=False, denied=None, e
         if st is not None and r1['backend'] != r2['backend'] and not dec(st.z() == ord('I')):
             V.append(('C01', 'H/transaction-split', 'statement %s of an open transaction on backend %d was executed on backend %d' % (show(r2['bytes'][:40]), r1['backend'], r2['backend'])))
     # ---- J4: what the client received (C03 downstream / C01 "every result was produced by its own connection for its own statement")
+    if any(r.get('died') for r in data['reqs']):
+        # the backend broke in the middle of a reply: that transaction fails; how much of the broken reply the client sees is not specified
+        return V
     expected = []
     for r in data['reqs']:
         if r.get('origin') == 'client':
